@@ -14,7 +14,7 @@ From Mos Require Import Base.Prelude Net.Reuse Net.ReuseProofs.
 Theorem C06_single_outstanding : forall s c, reachable s ->
   i_written (io (conns s c)) <= S (i_consumed (io (conns s c))) /\
   s_maxout (srv (conns s c)) <= 1 /\ s_dirtyq (srv (conns s c)) = false.
-Proof. intros s c R. split; [apply single_outstanding; auto | apply server_view; auto]. Qed.
+Proof. exact c06_single_outstanding. Qed.
 Print Assumptions C06_single_outstanding.
 
 (* a connection offered for reuse has consumed exactly the replies to the queries written on it,
@@ -33,12 +33,7 @@ Theorem C06_exclusive : forall s, reachable s ->
   (forall l s', step s l = Some s' -> panicked s' = false) /\
   (forall w1 w2 c, held (w_pc (works s w1)) = Some c -> held (w_pc (works s w2)) = Some c -> w1 = w2) /\
   (forall w c, held (w_pc (works s w)) = Some c -> f_inidle (fl (conns s c)) = false).
-Proof.
-  intros s R. split; [apply never_panics; auto|]. split.
-  - intros l s' H. apply never_panics. apply (reachable_step s l); auto.
-  - split; [intros w1 w2 c; apply exclusive; auto|].
-    intros w c H. destruct (owner_facts s w c R H) as (_ & B & _). exact B.
-Qed.
+Proof. exact c06_exclusive. Qed.
 Print Assumptions C06_exclusive.
 
 (* against a one-reply-per-query server a message returned to a caller (and a message a worker
@@ -47,7 +42,7 @@ Print Assumptions C06_exclusive.
 Theorem C06_own_reply : forall s, reachable s ->
   (forall e q, x_pc (exchs s e) = CDone (OMsg q) -> q = e) /\
   (forall w q, w_sent (works s w) = Some (RMsg q) -> q = w_exch (works s w)).
-Proof. intros s R. split; [intros e q; apply own_reply; auto | intros w q; apply own_result; auto]. Qed.
+Proof. exact c06_own_reply. Qed.
 Print Assumptions C06_own_reply.
 
 (* after the caller gave up: (a) its give-up step touches neither connections nor goroutines;
@@ -67,21 +62,14 @@ Theorem C06_abandoned : forall s, reachable s ->
      exists w, l = LRel2 w /\ w_pc (works s w) = WRel2 c true /\
                f_serving (fl (conns s c)) = false /\ cleanc (conns s c)) /\
   (forall c, i_err (io (conns s c)) = true -> f_inidle (fl (conns s c)) = false).
-Proof.
-  intros s R. split; [intros e s'; apply ctxdone_local|]. split.
-  - intros w c H. destruct (owner_facts s w c R H) as (_ & B & C). split; auto. split; auto.
-    intros w' H'. apply (exclusive s w' w c); auto.
-  - split; [intros l s' c; apply becomes_idle; auto|].
-    intros c He. destruct (f_inidle (fl (conns s c))) eqn:Ei; auto.
-    destruct (idle_clean s c R Ei) as (_ & _ & _ & E & _). congruence.
-Qed.
+Proof. exact c06_abandoned. Qed.
 Print Assumptions C06_abandoned.
 
 (* the histories replayed against the implementation are schedules of the small-step system, so
    all of the above holds of every state the model runner prints *)
 Theorem C06_big_refines_small : forall evs s tr,
   run_trace evs = Some (s, tr) -> steps init tr = Some s /\ reachable s.
-Proof. intros evs s tr H. split; [apply (big_refines_small evs); auto|]. exists tr. apply (big_refines_small evs); auto. Qed.
+Proof. exact c06_big_refines_small. Qed.
 Print Assumptions C06_big_refines_small.
 
 (* ---- non-vacuity ---- *)
